@@ -31,6 +31,8 @@ ASSUMPTIONS = [
     "rendering of the corresponding object') and are expected to be absent",
     "category of geoms on jointless child bodies of the world is accepted as static or dynamic: visualization.rst says "
     "mjCAT_STATIC 'selects MuJoCo geoms and sites belonging to the world body', the source says 'a body is static if it is welded to the world'",
+    "elements added by a plugin's visualize callback (mjv_updateScene: 'trigger plugin visualization hooks', e.g. the touch_grid sensor) are not "
+    "governed by mjvOption and are tolerated in the 'geoms only' configuration of models that have plugins",
     "slider-crank actuators are drawn unconditionally with the dynamic category (no vis flag exists for them): tolerated as "
     "extra non-geom elements in the 'geoms only' configuration",
     "infinite planes (a zero half-size, 'the plane is rendered as infinite in the dimension(s) with 0 size') are re-centred "
@@ -342,6 +344,10 @@ def _check_faithful(P, m, d, o, full, det):
         if int(g["objtype"]) != E.mjOBJ_GEOM:
             if int(g["objtype"]) == E.mjOBJ_ACTUATOR and has_crank:
                 P.count("tolerated_slidercrank_elements")
+                continue
+            if m.n("nplugin") > 0:
+                # mjv_updateScene first runs the visualize callbacks of the model's plugins, which may add their own elements
+                P.count("tolerated_plugin_visualize_elements")
                 continue
             P.violation("geoms-only-scene-contains-other-element:objtype=%s" % nm["obj"].get(int(g["objtype"]), "?"),
                         dict(det, index=k, objtype=int(g["objtype"]), objid=int(g["objid"]), type=int(g["type"])))
